@@ -20,8 +20,9 @@ TEXTBOOK_NEG = {'Eq': 'Ne', 'Ne': 'Eq', 'Eeq': 'Ene', 'Ene': 'Eeq', 'Gt': 'Lte',
                 'Rx': 'NotRx', 'NotRx': 'Rx', 'Like': 'NotLike', 'NotLike': 'Like', 'Between': 'NotBetween',
                 'NotBetween': 'Between'}
 LEAF_FIELDS = [('Size', 'Uid'), ('Gid', 'Inode'), ('Blocks', 'Hardlinks'), ('Device', 'Accessed')]
-TYPE_OPS = {'Int': E.CMP_OPS, 'Float': E.CMP_OPS, 'Bool': E.CMP_OPS, 'DateTime': E.CMP_OPS,
-            'String': ['Eq', 'Ne', 'Eeq', 'Ene', 'Rx', 'NotRx', 'Like', 'NotLike']}
+PATTERN_OPS = ['Rx', 'NotRx', 'Like', 'NotLike']        # on a number: the pattern is applied to the value's text
+TYPE_OPS = {'Int': E.CMP_OPS + PATTERN_OPS, 'Float': E.CMP_OPS, 'Bool': E.CMP_OPS, 'DateTime': E.CMP_OPS,
+            'String': ['Eq', 'Ne', 'Eeq', 'Ene', 'Rx', 'NotRx', 'Like', 'NotLike', 'Gt', 'Gte', 'Lt', 'Lte']}
 
 
 def operands(ctx, prog, ty, tag):
@@ -211,7 +212,7 @@ def fam_complement(sess, ty, real_negate_ops=()):
 
         def on_path(ctx, out, op=op, nop=nop, pat=pat, kind=kind):
             name = '%s: %s vs %s%s' % (fam, op, nop, (' pattern %r' % pat) if pat is not None else '')
-            if out[0] == 'exit' and ty == 'String':
+            if out[0] == 'exit' and (ty == 'String' or op in PATTERN_OPS):
                 # error_exit on an uncompilable pattern: both polarities exit alike
                 box.setdefault('exits', 0); box['exits'] += 1
                 return
